@@ -311,10 +311,10 @@ func newQueryPlan(ctx context.Context, store storage.Store, stm *semantic.Statem
 }
 
 // boundBindings returns the bindings the clause uses as time bounds of its
-// predicate.
+// predicate or of a predicate in the object position.
 func boundBindings(cls *semantic.GraphClause) []string {
 	var bs []string
-	for _, b := range []string{cls.PLowerBoundAlias, cls.PUpperBoundAlias} {
+	for _, b := range []string{cls.PLowerBoundAlias, cls.PUpperBoundAlias, cls.OLowerBoundAlias, cls.OUpperBoundAlias} {
 		if b != "" {
 			bs = append(bs, b)
 		}
@@ -562,6 +562,10 @@ func (p *queryPlan) addSpecifiedData(ctx context.Context, r table.Row, cls *sema
 		lo = nlo
 	}
 
+	if err := objectBoundsFromRow(cls, r); err != nil {
+		return err
+	}
+
 	tracer.V(3).Trace(p.tracer, func() *tracer.Arguments {
 		return &tracer.Arguments{
 			Msgs: []string{fmt.Sprintf("Corrected clause: %v", cls)},
@@ -595,6 +599,31 @@ func (p *queryPlan) addSpecifiedData(ctx context.Context, r table.Row, cls *sema
 			}
 		}
 		p.tbl.AddRow(table.MergeRows([]table.Row{r, nr}))
+	}
+	return nil
+}
+
+// objectBoundsFromRow narrows the time bounds of a predicate in the object
+// position of the clause with the values the row holds for the bindings used as
+// bounds. The clause must be a copy private to the row.
+func objectBoundsFromRow(cls *semantic.GraphClause, r table.Row) error {
+	if cls.OLowerBoundAlias != "" {
+		v, ok := r[cls.OLowerBoundAlias]
+		if !ok || v == nil || v.T == nil {
+			return fmt.Errorf("invalid time anchor value %v for bound %s", v, cls.OLowerBoundAlias)
+		}
+		if cls.OLowerBound == nil || v.T.After(*cls.OLowerBound) {
+			cls.OLowerBound = v.T
+		}
+	}
+	if cls.OUpperBoundAlias != "" {
+		v, ok := r[cls.OUpperBoundAlias]
+		if !ok || v == nil || v.T == nil {
+			return fmt.Errorf("invalid time anchor value %v for bound %s", v, cls.OUpperBoundAlias)
+		}
+		if cls.OUpperBound == nil || v.T.Before(*cls.OUpperBound) {
+			cls.OUpperBound = v.T
+		}
 	}
 	return nil
 }
